@@ -10,6 +10,7 @@ import (
 
 	mm "verif/minimysql"
 	"verif/vc"
+	"verif/wire"
 	"verif/world"
 )
 
@@ -36,7 +37,7 @@ type c16Prog struct {
 }
 
 func runC16(r *vc.Run, replay string) {
-	r.Rule = "programs = sequences of queries, DML (INSERT with table-order or shuffled column lists, UPDATE, DELETE, single- and multi-row INSERT ... ON DUPLICATE KEY UPDATE; literal and bound arguments, duplicate keys, syntax errors, unknown tables), prepared statements (exec/query reuse, close), explicit local transactions (default / isolation level / read-only options; commit or rollback), pinned connections, multi-statement texts and DDL (create/alter/drop); each program runs through the AT proxy, the XA proxy and the bare driver on identical databases, with interpolated parameters and (outside global transactions) with the driver's default server-side parameters, optionally with the server closing idle pooled connections in between; outside a global transaction: identical statement journal (text, arguments, order), identical step results, no coordinator traffic; inside a global transaction (AT, committed): identical business statement results and identical committed data, business statements reach the database in the same order; distinct_nontrivial = distinct (mode, proxy, step kinds, dsn flavour) signatures"
+	r.Rule = "programs = sequences of queries, DML (INSERT with table-order or shuffled column lists, UPDATE, DELETE, single- and multi-row INSERT ... ON DUPLICATE KEY UPDATE; literal and bound arguments, duplicate keys, syntax errors, unknown tables), prepared statements (exec/query reuse, close), explicit local transactions (default / isolation level / read-only options; commit or rollback), pinned connections, multi-statement texts and DDL (create/alter/drop); each program runs through the AT proxy, the XA proxy and the bare driver on identical databases, with interpolated parameters and (outside global transactions) with the driver's default server-side parameters, optionally with the server closing idle pooled connections in between; mixed programs: a dedicated connection used inside a global transaction (local commit / rollback, statement prepared there) and afterwards outside it; outside a global transaction: identical statement journal (text, arguments, order), identical step results, no coordinator traffic; inside a global transaction (AT, committed): identical business statement results and identical committed data, business statements reach the database in the same order; distinct_nontrivial = distinct (mode, proxy, step kinds, dsn flavour) signatures"
 	r.Assumptions = []string{"error values are compared by MySQL error number and text", "undo_log statements (the asynchronous commit worker deletes the logs of earlier global transactions at its own pace) and metadata lookups are transactional duties and are left out of the journal comparison", "statements the proxy issues when a connection is first opened (SELECT VERSION() and the like) are outside the compared window only if they precede the first program on that pool"}
 	n := 600
 	if r.Tier == "thorough" {
@@ -132,6 +133,147 @@ func c16Batch(r *vc.Run, bi int, interp bool, n int) {
 		}
 		for _, k := range proxies {
 			c16Judge(r, env, p, k, runs[k], runs["bare"])
+		}
+	}
+	if interp {
+		nm := 30
+		if r.Tier == "thorough" {
+			nm = 200
+		}
+		for i := 0; i < nm && ch.Alive(); i++ {
+			c16Mixed(r, env, rnd, fmt.Sprintf("m%d_%04d", bi, i))
+		}
+	}
+}
+
+// c16Mixed: one dedicated connection (db.Conn) is first used inside a global transaction (a local transaction that is
+// committed or rolled back) and afterwards, with the global transaction over, for ordinary statements. From the mark
+// on the proxies must again behave exactly like the bare driver: same statements, same results, no coordinator
+// traffic. Also with a statement prepared inside the global transaction and executed after it.
+func c16Mixed(r *vc.Run, env *c16Env, rnd *vc.Rand, name string) {
+	t := atGenTable(rnd, name+"_a", []string{"autoinc", "int", "varchar"}[rnd.Intn(3)], []string{"int", "bigint", "varchar", "double"}, 3, 4, false)
+	p := &c16Prog{Name: name, Mode: "mixed", Tables: []*atTable{t}, Feat: map[string]string{"mode": "mixed"}, KillAt: -1}
+	seq := 0
+	o := atStmtOpts{params: true, rowsClass: "1"}
+	inner := []gtxStep{{Op: "begin", DB: "X"}, {Op: "exec", DB: "X", SQL: atGenUpdate(rnd, t, o).SQL}}
+	u := atGenUpdate(rnd, t, o)
+	inner[1].SQL, inner[1].Args = u.SQL, u.Args
+	end := []string{"commit", "rollback"}[rnd.Intn(2)]
+	inner = append(inner, gtxStep{Op: end})
+	outcome := []string{"nil", "error"}[rnd.Intn(2)]
+	withStmt := rnd.Intn(3) == 0
+	vc0 := t.Def.Cols[t.valueCols()[0]].Name
+	w, wargs := pkWhere(t, t.Rows[rnd.Intn(len(t.Rows))], true)
+	if withStmt {
+		inner = append([]gtxStep{{Op: "prepare", DB: "X", Stmt: "s1", SQL: fmt.Sprintf("update %s set %s = %s where %s", t.Name, vc0, vc0, w)}}, inner...)
+	}
+	var after []gtxStep
+	for k := 0; k < 1+rnd.Intn(2); k++ {
+		var st atStmt
+		switch rnd.Intn(3) {
+		case 0:
+			st = atGenUpdate(rnd, t, atStmtOpts{params: true, rowsClass: []string{"1", "many"}[rnd.Intn(2)]})
+		case 1:
+			st = atGenDelete(rnd, t, o)
+		default:
+			st = atGenInsert(rnd, t, o, 1, &seq)
+		}
+		after = append(after, gtxStep{Op: "exec", DB: "X", SQL: st.SQL, Args: st.Args})
+	}
+	if rnd.Bool() {
+		after = append(after, gtxStep{Op: "query", DB: "X", SQL: fmt.Sprintf("select * from %s where %s for update", t.Name, w), Args: wargs})
+	}
+	if withStmt {
+		after = append(after, gtxStep{Op: "stmt_exec", Stmt: "s1", Args: wargs})
+	}
+	p.Feat["gtx_part"] = end + "/" + outcome
+	p.Feat["prepared_inside"] = fmt.Sprint(withStmt)
+	c16Install(env, p)
+	defer c16Drop(env, p)
+	type run struct {
+		res     scopeResult
+		err     error
+		journal []string
+		tc      []string
+	}
+	runs := map[string]*run{}
+	for _, k := range []string{"bare", "at", "xa"} {
+		bind := func(in []gtxStep) []gtxStep {
+			var o []gtxStep
+			for _, s := range in {
+				if s.DB == "X" {
+					s.DB = k
+				}
+				o = append(o, s)
+			}
+			return o
+		}
+		cs := name + "_" + k
+		steps := []gtxStep{{Op: "conn_pin", DB: k}}
+		steps = append(steps, gtxStep{Op: "scope", Scope: &gtxScope{Name: cs, TimeoutMs: 60000, Outcome: outcome, Label: k + "-gtx", ShareConn: true, Steps: bind(inner)}})
+		steps = append(steps, gtxStep{Op: "mark", What: "c16-after-gtx"})
+		steps = append(steps, bind(after)...)
+		steps = append(steps, gtxStep{Op: "conn_release"})
+		rr := &run{}
+		runs[k] = rr
+		rr.err = env.ch.Call("gtx", &gtxScope{Case: cs, Name: cs, TimeoutMs: 60000, Outcome: "nil", Label: k, NoGtx: true, Steps: steps}, &rr.res)
+		var markSeq int64 = -1
+		for _, m := range env.w.Marks.Of(cs) {
+			if m.What == "c16-after-gtx" {
+				markSeq = m.Seq
+			}
+		}
+		if rr.err != nil || markSeq < 0 {
+			r.Inconc(fmt.Sprintf("%s: mixed program did not reach its mark (%v)", cs, rr.err))
+			r.Case("", nil)
+			return
+		}
+		for _, j := range env.dbs[k].E.JournalSince(markSeq) {
+			if strings.HasPrefix(strings.ToUpper(j.SQL), "SET @VERIF_CLASS") || j.Kind == "INFOSCHEMA" || j.Kind == "SHOW" || strings.EqualFold(j.Table, "undo_log") || strings.Contains(strings.ToLower(j.SQL), " undo_log") || strings.EqualFold(strings.TrimSpace(j.SQL), "SELECT VERSION()") {
+				continue
+			}
+			rr.journal = append(rr.journal, c16Render(j))
+		}
+		for _, ev := range env.w.TC.EventsSince(markSeq) {
+			if ev.Dir != "in" || ev.FType == wire.FrameResponse || ev.Type == "ping" || strings.Contains(strings.ToLower(ev.Type), "heartbeat") {
+				continue
+			}
+			rr.tc = append(rr.tc, ev.Type)
+		}
+		// finish the global transaction of this run at the coordinator (phase two), outside the compared window
+		if x := rr.res; len(x.Steps) > 1 && x.Steps[1].Scope != nil && x.Steps[1].Scope.XidIn != "" {
+			env.w.TC.DrivePhaseTwo(x.Steps[1].Scope.XidIn, outcome == "nil", 1, 0)
+		}
+		// the three databases must start the next run alike: bring the tables back
+		for _, tt := range p.Tables {
+			env.dbs[k].E.Truncate(tt.Name)
+			env.dbs[k].E.Load(tt.Name, tt.Rows)
+		}
+	}
+	want := runs["bare"]
+	for _, k := range []string{"at", "xa"} {
+		got := runs[k]
+		feat := map[string]string{"proxy": k, "mode": "mixed", "gtx_part": p.Feat["gtx_part"], "prepared_inside": p.Feat["prepared_inside"]}
+		shape := featShape(feat)
+		r.Case(shape, map[string]interface{}{"program": p, "proxy": k, "after_gtx_proxy": clipList(got.journal, 20), "after_gtx_bare": clipList(want.journal, 20)})
+		viol := func(clause, detail string) {
+			r.Violate(&vc.Violation{Clause: clause, Shape: shape, Features: feat, Detail: detail, Case: map[string]interface{}{"inside": inner, "after": after, "table": describeTable(t)},
+				History: map[string]interface{}{"proxy_steps": got.res.Steps, "bare_steps": want.res.Steps, "proxy_journal_after_gtx": got.journal, "bare_journal_after_gtx": want.journal, "coordinator_requests_after_gtx": got.tc}})
+		}
+		if strings.Join(got.journal, "\n") != strings.Join(want.journal, "\n") {
+			viol("journal-differs", fmt.Sprintf("on a dedicated connection that had been used inside a global transaction, the statements reaching the database afterwards differ from the bare driver's: %d vs %d, first proxied %q", len(got.journal), len(want.journal), clipStr(strings.Join(clipList(got.journal, 2), " ; "), 300)))
+			continue
+		}
+		if len(got.tc) > 0 {
+			viol("coordinator-traffic-outside", fmt.Sprintf("after the global transaction was over, statements on the same dedicated connection caused coordinator requests: %v", got.tc))
+			continue
+		}
+		for i := 3; i < len(got.res.Steps) && i < len(want.res.Steps); i++ {
+			a, b := got.res.Steps[i], want.res.Steps[i]
+			if (a.Err == "") != (b.Err == "") || a.Affected != b.Affected || len(a.Rows) != len(b.Rows) {
+				viol("result-differs", fmt.Sprintf("step %d (%s) after the global transaction: proxied err=%q affected=%d rows=%d, bare err=%q affected=%d rows=%d", i, a.Op, clipStr(a.Err, 100), a.Affected, len(a.Rows), clipStr(b.Err, 100), b.Affected, len(b.Rows)))
+				break
+			}
 		}
 	}
 }
